@@ -261,7 +261,7 @@ Theorem recv_ok_complete cfg e w p denom amount sender receiver pl f t t' a cp a
   accepts cfg e w p denom amount sender receiver pl f t t' a cp acalls fcalls ams mv ->
   rr_out (recv cfg e w p []) = OAckOk.
 Proof.
-  intros A. unfold recv, recv_lie, recv_with.
+  intros A. unfold recv, recv_lie, recv_with, recv_generic.
   rewrite (ac_source _ _ _ _ _ _ _ _ _ _ _ _ _ _ _ _ _ _ A), (ac_src_port _ _ _ _ _ _ _ _ _ _ _ _ _ _ _ _ _ _ A),
     (ac_adapter _ _ _ _ _ _ _ _ _ _ _ _ _ _ _ _ _ _ A), (ac_data _ _ _ _ _ _ _ _ _ _ _ _ _ _ _ _ _ _ A),
     (ac_receiver _ _ _ _ _ _ _ _ _ _ _ _ _ _ _ _ _ _ A), (ac_parse _ _ _ _ _ _ _ _ _ _ _ _ _ _ _ _ _ _ A),
